@@ -36,7 +36,17 @@ def generate(rng, i, tier):
         modes["logic-mode"] = "OR"
     if rng.random() < 0.15:
         modes["unmatched-mode"] = "keep"
+    if rng.random() < 0.06:
+        modes["run-mode"] = "no-run"
     m = gen.gen_member(rng, rows[0], len(rows), "m0", max_comps=6, modes=modes, zoo_p=0.5, zoo_pool=gen.ZOO)
+    if rng.random() < 0.2:
+        # narrow the returned line with collect(): columns that exist, and sometimes one that a short line lacks
+        ncol = len(rows[0])
+        cols = sorted(rng.sample(range(ncol + (1 if rng.random() < 0.3 else 0)), rng.randint(1, min(2, ncol))))
+        m["comps"].insert(rng.randint(0, len(m["comps"])), "collect(" + ", ".join(f"#{c}" for c in cols) + ")")
+        if rng.random() < 0.85:
+            # (projection together with unmatched-mode: keep is a known finding - keep most runs away from it)
+            (m.get("modes") or {}).pop("unmatched-mode", None)
     return {
         "seed": rng.getrandbits(32),
         "rows": rows,
@@ -95,6 +105,13 @@ def execute(sc):
     out = Out()
     seams.reset(sc["seed"])
     delim, quote = sc["dialect"]
+    pk = (sc["member"].get("modes") or {}).get("unmatched-mode") == "keep" and any(c.startswith("collect(") for c in sc["member"]["comps"])
+    _v = out.v
+
+    def v_with_fact(clause, detail, **facts):
+        _v(clause, detail, projection_with_unmatched_keep=bool(pk), **facts)
+
+    out.v = v_with_fact
     with W.World(csvpath_policy=sc["policy"]) as w:
         w.write_csv("src/f.csv", sc["rows"], delimiter=delim, quotechar=quote)
         text = gen.render(sc["member"], "src/f.csv")
@@ -110,37 +127,62 @@ def execute(sc):
         with ops.quiet():
             try:
                 cp, tp = mk()
-                snaps, yielded = [], []
-                for line in cp.next(text):
-                    yielded.append(list(line))
-                    snaps.append(_st(cp, tp.lines))
-                    out.fault("consumer_step")
+                snaps, yielded, kept = [], [], []
+                next_exc = None
+                try:
+                    for line in cp.next(text):
+                        kept.append(line)  # the very objects the generator handed out, as `list(cp.next())` would keep them
+                        yielded.append(list(line))
+                        snaps.append(_st(cp, tp.lines))
+                        out.fault("consumer_step")
+                except Exception as e:  # noqa: BLE001
+                    if not ops.in_repo(e) or type(e).__name__ in ("VisitError", "UnexpectedCharacters", "UnexpectedEOF", "ParsingException", "UnexpectedToken"):
+                        raise
+                    next_exc = ops.exc_sig(e)
                 fin = _st(cp, tp.lines)
+                if [list(x) for x in kept] != yielded:
+                    out.v("yielded_lines_mutated", f"{text!r}: lines kept from next() read {[list(x) for x in kept]!r:.300} after the run, they were {yielded!r:.300} when yielded")
             except Exception as e:  # noqa: BLE001
                 if ops.in_repo(e) and type(e).__name__ in ("VisitError", "UnexpectedCharacters", "UnexpectedEOF", "ParsingException", "UnexpectedToken"):
                     out.discard = True
                     return out.done()
                 raise
             out.runs += 1
+            def attempt(fn):
+                try:
+                    return fn(), None
+                except Exception as e:  # noqa: BLE001
+                    if not ops.in_repo(e):
+                        raise
+                    return None, ops.exc_sig(e)
+
             cp, tp = mk()
-            got = [list(x) for x in cp.collect(text)]
+            got, cexc = attempt(lambda: [list(x) for x in cp.collect(text)])
             sc_ = _st(cp, tp.lines)
             out.runs += 1
-            if got != yielded:
+            if (cexc is None) != (next_exc is None):
+                out.v("entry_points_disagree_on_raising", f"{text!r}: next() {'raised ' + next_exc if next_exc else 'returned'}, collect() {'raised ' + cexc if cexc else 'returned'}")
+            if cexc is None and got != yielded:
                 out.v("collect_lines", f"{text!r}: collect() returned {got!r:.300}, next() yielded {yielded!r:.300}")
             d = _first_diff(fin, sc_)
             if d:
                 out.v("collect_state", f"{text!r}: state after collect() differs from next(): {d}", field=d.split(":")[0])
             cp, tp = mk()
-            cp.fast_forward(text)
+            _, fexc = attempt(lambda: cp.fast_forward(text))
             sf = _st(cp, tp.lines)
             out.runs += 1
+            if (fexc is None) != (next_exc is None):
+                out.v("entry_points_disagree_on_raising", f"{text!r}: next() {'raised ' + next_exc if next_exc else 'returned'}, fast_forward() {'raised ' + fexc if fexc else 'returned'}")
             d = _first_diff(fin, sf)
             if d:
                 out.v("fast_forward_state", f"{text!r}: state after fast_forward() differs from next(): {d}", field=d.split(":")[0])
             for n in range(1, len(yielded) + 2):
                 cp, tp = mk()
-                ln = [list(x) for x in cp.collect(text, nexts=n)]
+                ln, nexc = attempt(lambda: [list(x) for x in cp.collect(text, nexts=n)])
+                if nexc is not None:
+                    if n <= len(yielded):
+                        out.v("nexts_raised", f"{text!r}: collect(nexts={n}) raised {nexc} although next() yielded {len(yielded)} lines before any exception")
+                    break
                 s = _st(cp, tp.lines)
                 out.runs += 1
                 out.fault("cancel")
